@@ -720,12 +720,20 @@ class UnitDatabase(Singleton):
         if category_info.valid_units is not None:
             return category_info.valid_units
         else:
-            if category_info.quantity_type != category:
-                return self.GetValidUnits(category_info.quantity_type)
+            quantity_type = category_info.quantity_type
+            if quantity_type != category:
+                # the category named after the quantity type (when there is one) may restrict the units
+                type_category_info = self.categories_to_quantity_types.get(quantity_type)
+                if (
+                    type_category_info is not None
+                    and type_category_info.quantity_type == quantity_type
+                    and type_category_info.valid_units is not None
+                ):
+                    return type_category_info.valid_units
 
             # the valid units have not been specified for the given category (so, let's return
             # the units for the quantity type)
-            return self.GetUnits(category_info.quantity_type)
+            return self.GetUnits(quantity_type)
 
     def GetDefaultValue(self, category: str) -> float:
         """
